@@ -3,22 +3,34 @@ import WV.Proofs.C16
 namespace WV.Proofs.C16
 open WV WV.Gen WV.C16
 
-@[simp] theorem sendPingResetTimer_mgr (cfg : Cfg) (s : St) : (sendPingResetTimer cfg s).mgr = s.mgr := by
-  simp only [sendPingResetTimer, sendPing]
+@[simp] theorem sendPingResetTimer_mgr (cfg : Cfg) (s : St) : (sendPingResetTimer cfg s).1.mgr = s.mgr := by
+  simp only [sendPingResetTimer, sendPing_eq]
   split
-  · rfl
-  · split
+  · simp only [andThen_ok]
+    split
     · rfl
-    · split <;> rfl
+    · split
+      · rfl
+      · split <;> rfl
+  · rfl
 
 @[simp] theorem signalReconnect_mgr (s : St) : (signalReconnect s).mgr = s.mgr := by
   simp only [signalReconnect]; split <;> rfl
 
 @[simp] theorem ttOutputs_mgr (cfg : Cfg) (outs : List TrafficTimer.Output) (s : St) :
-    (ttOutputs cfg outs s).mgr = s.mgr := by
+    (ttOutputs cfg outs s).1.mgr = s.mgr := by
   induction outs generalizing s with
   | nil => rfl
-  | cons o r ih => cases o <;> simp [ttOutputs, ih]
+  | cons o r ih =>
+    cases o
+    · simp only [ttOutputs]
+      have h1 := sendPingResetTimer_mgr cfg s
+      generalize sendPingResetTimer cfg s = r1 at h1
+      obtain ⟨s1, e⟩ := r1
+      cases e with
+      | none => simp only [andThen_ok]; rw [ih]; exact h1
+      | some e => exact h1
+    · simp [ttOutputs, ih]
 
 theorem ttInput_mgr (cfg : Cfg) (i : TrafficTimer.Input) (s : St) : (ttInput cfg i s).1.mgr = s.mgr := by
   simp only [ttInput]
@@ -34,8 +46,10 @@ theorem made_leader {T : Nat} {s s' : St} (hi : Inv T s) (hl : s.role = some tru
     s.mgr = .CONNECTING ∧ s.timer = none ∧ s.conn = none ∧
     s' = { s with mgr := .CONNECTED, traffic := some .connected, timer := some (s.now + T),
                   conn := some s.nextConn, outConn := some s.nextConn, outPaused := false, readPaused := !s.inPaused.isEmpty, nextConn := s.nextConn + 1,
-                  pings := s.pings ++ [{ id := s.nextPing, sent := s.now, wire := none }],
-                  nextPing := s.nextPing + 1, lastPing := s.now, madeAt := s.now, dropped := false } := by
+                  pings := s.pings ++ [{ id := pingId s, sent := s.now, wire := none }],
+                  nextPing := max s.nextPing (pingId s + 1), draws := s.draws.tail,
+                  lastPing := s.now, madeAt := s.now, dropped := false } ∧
+    freshNext s = true := by
   obtain ⟨h1, h2, h3, h4, h5, h6, h7, h8, h9, h10, h11, h12, h13⟩ := hi
   simp only [step, connMade] at h
   simp only [hl, if_true] at h
@@ -57,19 +71,27 @@ theorem made_leader {T : Nat} {s s' : St} (hi : Inv T s) (hl : s.role = some tru
   obtain ⟨hc, ho, htm, htr⟩ := hu
   refine ⟨hm, htm, hc, ?_⟩
   rcases htr with htr | htr
-  · simp [htr, ttInput, TrafficTimer.table, TrafficTimer.init, ttOutputs, sendPingResetTimer, sendPing, htm, ho,
-      mgrInput, hm, Manager.table, mgrOutputs] at h
-    subst h
-    simp [hl]
-  · simp [htr, ttInput, TrafficTimer.table, ttOutputs, sendPingResetTimer, sendPing, htm, ho,
-      mgrInput, hm, Manager.table, mgrOutputs] at h
-    subst h
-    simp [hl]
+  · simp [htr, ttInput, TrafficTimer.table, TrafficTimer.init, ttOutputs] at h
+    rw [sprt_none (by exact htm)] at h
+    split at h
+    · rename_i hf
+      simp [pinged, mgrInput, hm, Manager.table, mgrOutputs, ho] at h hf
+      subst h
+      simp [hl, hf]
+    · simp at h
+  · simp [htr, ttInput, TrafficTimer.table, ttOutputs] at h
+    rw [sprt_none (by exact htm)] at h
+    split at h
+    · rename_i hf
+      simp [pinged, mgrInput, hm, Manager.table, mgrOutputs, ho] at h hf
+      subst h
+      simp [hl, hf]
+    · simp at h
 
 theorem inv_made {T : Nat} {s s' : St} (hT : 1 ≤ T) (hi : Inv T s)
     (h : step (Cfg.real T) s .made = (s', none)) : Inv T s' := by
   by_cases hl : s.role = some true
-  · obtain ⟨hm, htm, hc, he⟩ := made_leader hi hl h
+  · obtain ⟨hm, htm, hc, he, _⟩ := made_leader hi hl h
     obtain ⟨h1, h2, h3, h4, h5, h6, h7, h8, h9, h10, h11, h12, h13⟩ := hi
     subst he
     constructor <;> simp_all [inUse]
